@@ -34,9 +34,17 @@ func c13bGen(rt *rapid.T) e4Case {
 			c.Cfg.PingMs = rapid.IntRange(5, 8).Draw(rt, "pingMs3")
 			c.Cfg.PingTimeoutMs = rapid.IntRange(40, 60).Draw(rt, "pingTimeoutMs3")
 			c.Cfg.AppPingShortN = rapid.IntRange(1, 3).Draw(rt, "appPingShortN")
+			// by construction: the late answers have arrived (8 ms), one request completes, the peer goes silent right
+			// behind it, and one more request keeps the client waiting until the silence has been dealt with
+			c.Steps = []e4Step{{Kind: "connect"}, {Kind: "settle"}, {Kind: "sleep", Extra: 8000},
+				{Kind: "pub", QoS: 1, Topic: "t/a", Idx: 1}, {Kind: "settle"}, {Kind: "pub", QoS: 1, Topic: "t/b", Idx: 2}}
+			c.Faults = []e4Fault{{Kind: "goSilentType", Conn: 1, Type: rtPublish, Nth: 1}}
 		}
 		// steady outbound traffic (QoS0 publishes more often than the ping interval) must not keep the silence undetected
 		c.Cfg.ChatterUs = rapid.SampledFrom([]int{0, 0, 300, 1000}).Draw(rt, "chatterUs")
+		if c.Cfg.AppPingShortN > 0 {
+			c.Cfg.ChatterUs = 0 // (the constructed case counts PUBLISH packets)
+		}
 	} else {
 		// negative class: every ping is answered; the timeout is far away so that load cannot fake a silence
 		c.Cfg.PingTimeoutMs = 2000
